@@ -430,7 +430,55 @@ def dup_case(ti):
     return listing_fixpoint(a)
 
 
+def based_case(base):
+    """pc-relative forms in a state whose instruction memory starts at `base` (not 0): the printed listing, assembled into an
+    equal state, gives the same instructions — immediates relative to the TRUE addresses — and the same listing."""
+    from architecture_simulator.uarch.memory.instruction_memory import InstructionMemory
+    from architecture_simulator.uarch.riscv.riscv_architectural_state import RiscvArchitecturalState
+
+    def sim_at():
+        return RiscvSimulation(state=RiscvArchitecturalState(instruction_memory=InstructionMemory(address_range=range(base, 2 ** 14))))
+
+    text = f"jal x1, {base + 8}\nl: addi x5, x5, 1\njal x2, l\njal x0, {base}\nbeq x0, x0, l\nbne x5, x6, {-8}\njal x3, {base + 40}\nm: jal x4, m\n"
+    want_imm = {0: 8, 8: -4, 12: -12, 16: -12, 20: -8, 24: 40 - 24, 28: 0}
+    a = sim_at()
+    a.load_program(text)
+    im = a.state.instruction_memory
+    for off, imm in want_imm.items():
+        got = im.read_instruction(base + off)
+        if int(got.imm) != imm:
+            return f"instruction memory starting at {base}: {text.splitlines()[off // 4]!r} at address {base + off} has immediate {int(got.imm)}, its target is {imm} bytes away"
+    listing = [t for _a, t in im.get_representation()]
+    b = sim_at()
+    b.load_program("\n".join(listing) + "\n")
+    imb = b.state.instruction_memory
+    for (addr, t) in im.get_representation():
+        x, y = im.read_instruction(addr), imb.read_instruction(addr)
+        if type(x) is not type(y) or asm.fields_full(x) != asm.fields_full(y) or getattr(x, "abs_addr", None) != getattr(y, "abs_addr", None):
+            return f"instruction memory starting at {base}: the printed line {t!r} re-assembles at {addr} to {asm.fields_full(y)}, the instruction there is {asm.fields_full(x)}"
+    if [t for _a, t in imb.get_representation()] != listing:
+        return f"instruction memory starting at {base}: the re-assembled listing differs from the listing"
+    return None
+
+
+def based_shard(base):
+    p = Partial()
+    p.evaluations += 1
+    p.nontrivial += 1
+    p.counters["instruction-memory-with-another-first-address"] += 1
+    try:
+        d = based_case(base)
+    except Exception as e:  # noqa
+        d = f"instruction memory starting at {base}: {type(e).__name__}: {e!r}"
+    if d:
+        p.violation(dict(oracle="pc-relative-forms-at-another-base", field="differs"), dict(kind="based", base=base), d, size=(base,))
+    return p
+
+
 def replay(case):
+    if case["kind"] == "based":
+        d = based_case(case["base"])
+        return [(dict(oracle="pc-relative-forms-at-another-base", field="differs"), d)] if d else []
     if case["kind"] == "dup":
         d = dup_case(case["ti"])
         return [(dict(oracle="repeated-lines", field="differs"), d)] if d else []
@@ -479,6 +527,10 @@ def run(ctx):
     part = pmap(overwrite_shard, list(range(len(OVERWRITE_SPECS))))
     ctx.space("listing-after-in-place-overwrite", part, t0, pairs=len(OVERWRITE_SPECS) ** 2, addresses=3)
     ctx.require("listing-after-in-place-overwrite", "listing-of-a-batch")
+    t0 = time.time()
+    part = pmap(based_shard, [0, 4, 0x100, 0x7FC, 0x1000, 0x3F00])
+    ctx.space("pc-relative-forms-at-another-base", part, t0, bases=[0, 4, 0x100, 0x7FC, 0x1000, 0x3F00])
+    ctx.require("instruction-memory-with-another-first-address")
     t0 = time.time()
     part = Partial()
     for ti in range(len(DUP_TEXTS)):
